@@ -49,6 +49,7 @@ func GenOps(rt *rapid.T, n int, kinds []string) []Op {
 		case "retain":
 			op.A = rapid.IntRange(0, 255).Draw(rt, "mask")
 			op.B = rapid.IntRange(0, 3).Draw(rt, "late")
+			op.On = rapid.IntRange(0, 3).Draw(rt, "besideasave") == 0 // the update arrives while a newer checkpoint is being saved
 		case "restore":
 			op.A = rapid.IntRange(0, 7).Draw(rt, "which")
 			op.B = rapid.IntRange(0, 31).Draw(rt, "chain")
